@@ -2230,3 +2230,571 @@ def r21(cx):
                      'suspend again without polling the task: a task that waits for something select() does not watch - open() of a FIFO whose '
                      'other end is not open yet - is never resumed, so `echo hi >fifo & cat <fifo; wait` deadlocks under every schedule '
                      '("deadlock detected"), while a real kernel completes the rendezvous', loc=body.loc(body.term(y)), path=Q.render_path(body, p))
+
+
+# ---------------------------------------------------------------------------------------
+# added after the fix 6476b30 (the simulated opendir listed a directory that has no read permission)
+INODE = VKERNEL + '::file_system::Inode'
+_MODE_TEST = re.compile(r'<impl yash_env::system::file_system::Mode>::(contains|intersects)$')
+_MODE_CONST = re.compile(r'<impl yash_env::system::file_system::Mode>::(?:USER|GROUP|OTHER|ALL)_(READ|WRITE|EXEC)$')
+_MODE_OR = re.compile(r'file_system::Mode as core::ops::bit::BitOr>::bitor$|<impl yash_env::system::file_system::Mode>::union$')
+_MAP_SEARCH = {'get', 'get_mut', 'contains_key', 'get_key_value'}
+_MAP_LIST = {'keys', 'iter', 'values', 'into_iter', 'iter_mut', 'values_mut', 'into_keys', 'into_values', 'drain'}
+_DERIVED = re.compile(r' as core::(clone::Clone|fmt::Debug|cmp::PartialEq|cmp::Eq|hash::Hash)>::')
+
+
+def _mode_class(du, operand, depth=2):
+    """'READ' | 'WRITE' | 'EXEC' when the operand is a named permission constant of that class (or a union of such)."""
+    org = du.origin(operand)
+    if org['k'] == 'const':
+        m = _MODE_CONST.search(str(org['o'].get('cdef') or ''))
+        return m.group(1) if m else None
+    if org['k'] == 'call' and depth and _MODE_OR.search(pp.callee(org['t'])):
+        cs = {_mode_class(du, a, depth - 1) for a in org['t']['a']}
+        return cs.pop() if len(cs) == 1 else None
+    return None
+
+
+def _reads_inode_permissions(du, operand, depth=5):
+    """The operand is (a reference to / a copy of) the `permissions` field of an Inode."""
+    org = du.origin(operand)
+    while depth:
+        depth -= 1
+        if org['k'] not in ('ref', 'place'):
+            return False
+        pl = org['pl']
+        if Q._projects_field(pl, INODE, 'permissions'):
+            return True
+        if pl.get('p'):
+            return False
+        nxt = du.origin_place(pl)
+        if nxt['k'] == 'place' and nxt['pl'] == pl:
+            return False
+        org = nxt
+    return False
+
+
+def _perm_test(F, du, org, lab, depth=1):
+    """(class, granted) when the condition `org` with outcome `lab` tells that a permission class of an inode is granted or
+    not: Mode::contains / Mode::intersects on Inode.permissions with a named permission constant - directly, or through a
+    predicate of the simulated kernel whose body is such a test."""
+    org, lab = Q.peel_not(du, org, lab)
+    if not lab or lab[0] != 'bool' or org['k'] != 'call':
+        return None
+    t = org['t']
+    name = pp.callee(t)
+    if _MODE_TEST.search(name) and len(t['a']) == 2:
+        cls = _mode_class(du, t['a'][1])
+        if cls and _reads_inode_permissions(du, t['a'][0]):
+            return (cls, lab[1])
+        return None
+    cb = F.bodies.get(name)
+    if depth and cb is not None and name.startswith(VKERNEL) and cb.locals[0].get('ty') == 'bool' and len(cb.blocks) <= 12:
+        cdu = Q.DefUse(cb)
+        got = set()
+        for blk, ct in cb.calls():
+            if ct['dest']['l'] == 0 and not ct['dest'].get('p'):
+                got.add(_perm_test(F, cdu, {'k': 'call', 't': ct, 'b': blk}, ('bool', True), 0))
+        defs0 = [s for _, _, s in cb.stmts() if s['k'] == 'assign' and s['lhs']['l'] == 0]
+        if len(got) == 1 and None not in got and not defs0:
+            cls, v = got.pop()
+            return (cls, v == lab[1])
+    return None
+
+
+def _mentions_permissions(F, body, du):
+    """Some read of Inode.permissions, or some Mode test against a permission constant, in the body (whatever its shape)."""
+    for blk, j, s in body.stmts():
+        if s['k'] == 'assign' and any(Q._projects_field(p, INODE, 'permissions') for p in Q.rvalue_places(s['rv'])):
+            return body.loc(s)
+    for blk, t in body.calls():
+        if _MODE_TEST.search(pp.callee(t)) and any(_mode_class(du, a) for a in t['a']):
+            return body.loc(t)
+        for a in t['a']:
+            p = Q.operand_place(a)
+            if p is not None and Q._projects_field(p, INODE, 'permissions'):
+                return body.loc(t)
+    return None
+
+
+def _behind_permission(F, body, du, site_blk, cls):
+    """(how, [test calls]): how the block is known to run only after permission class `cls` was found granted - a dominating
+    (or implied) test, or no path from the entry avoids the granted edge of such a test. (None, []) when not shown."""
+    for org, lab, e in Q.implied_conditions(F, body, du, site_blk):
+        if _perm_test(F, du, org, lab) == (cls, True):
+            return 'dominating test at %s' % body.loc(body.term(e[0])), [Q.peel_not(du, org, lab)[0]['t']]
+    granted = set()
+    tests = []
+    for u in sorted(body.live_blocks()):
+        ec = Q.edge_condition(F, body, du, u)
+        if not ec:
+            continue
+        for tgt, labs in ec[1].items():
+            if labs and all(_perm_test(F, du, ec[0], l) == (cls, True) for l in labs):
+                granted.add((u, tgt))
+                tests.append(Q.peel_not(du, ec[0], labs[0])[0]['t'])
+    # a path that builds an error value (`return Err(..)` of an inlined helper, the residual of `?`) does not go on to the use
+    errs = {blk for blk, t in body.calls() if Q.callee_is(t, Q.FROM_RESIDUAL)}
+    errs |= {blk for blk, j, st in Q.find_aggregates(body, 'core::result::Result', 'Err')}
+    if granted and Q.shortest_path_flags(F, body, du, 0, {site_blk}, removed=errs - {site_blk}, removed_edges=granted) is None:
+        return 'every path takes the granted edge of the test at %s' % ', '.join(sorted({body.loc(t) for t in tests})), tests
+    return None, []
+
+
+_TRANSPARENT = re.compile(r'::(deref|deref_mut|borrow|borrow_mut|as_ref|clone|inode)$')
+
+
+def _value_roots(body, du, operand, depth=16):
+    """Locals met when walking an operand back through references, copies, field projections and Rc/RefCell/Ref accessors:
+    the values a tested `&inode.permissions` belongs to."""
+    seen = set()
+    work = [Q.operand_place(operand)]
+    while work and depth:
+        depth -= 1
+        p = work.pop()
+        if p is None or p['l'] in seen:
+            continue
+        l = p['l']
+        seen.add(l)
+        for blk, idx, node in du.defs.get(l, []):
+            if idx == 't':
+                if _TRANSPARENT.search(pp.callee(node).split(' [')[0]) and node['a']:
+                    work.append(Q.operand_place(node['a'][0]))
+            elif node['k'] == 'assign':
+                work.extend(Q.rvalue_places(node['rv']))
+    return seen
+
+
+def _directory_content_uses(F):
+    """{body path: [(block, call, 'search' | 'list')]}: calls on the `files` map of a FileBody::Directory in the simulated
+    kernel - a lookup of one name (search) or an enumeration of the names (list)."""
+    out = {}
+    for k, b in _kernel_bodies(F).items():
+        if _DERIVED.search(k):
+            continue
+        seeds = set()
+        for blk, j, s in b.stmts():
+            if s['k'] == 'assign' and not s['lhs'].get('p') and any(Q._projects_field(p, re.compile(r'::file_body::FileBody$'), 'files')
+                                                                     for p in Q.rvalue_places(s['rv'])):
+                seeds.add(s['lhs']['l'])
+        if not seeds:
+            continue
+        T = Q.forward_taint(b, seeds, through_calls=[re.compile(r'::deref$|::deref_mut$|::borrow$|::as_ref$')])
+        for blk, t in b.calls():
+            if not t['a'] or 'HashMap<' not in str((t.get('at') or [''])[0]) or 'Inode' not in str((t.get('at') or [''])[0]):
+                continue
+            l = Q.operand_local(t['a'][0])
+            if l is None or l not in T:
+                continue
+            seg = pp.callee(t).split(' [')[0].split('::')[-1]
+            kind = 'search' if seg in _MAP_SEARCH else 'list' if seg in _MAP_LIST else None
+            if kind:
+                out.setdefault(k, []).append((blk, t, kind))
+    return out
+
+
+def _short(k):
+    return '::'.join(k.split('::')[-3:]) if not k.startswith('<') else k.split('::')[-1]
+
+
+def _kernel_inlined(F, body, max_blocks=220):
+    """The body with the private functions of the simulated kernel it calls (resolve_file, create_fd, small predicates) in place."""
+    from facts import inline_helpers
+    return inline_helpers(F, body, lambda c: c.startswith(VKERNEL) and (F.fns.get(c) or {}).get('vis') not in (None, 'pub')
+                          and '::tests' not in c, max_blocks=max_blocks)
+
+
+@RS.rule('C19.R22', 'K-SIBLING', 'the contents of a simulated directory are used only with the permission a real kernel demands for that use, and '
+         'the two uses agree: a name is looked up in a directory (path walk) behind the SEARCH permission of that directory, and the names are '
+         'enumerated (opendir: pathname -> directory stream) behind its READ permission - `echo dir/*` on a directory without read '
+         'permission is EACCES in opendir and the pattern stays unexpanded. Not claimed: open()/execve check no permission bits on the '
+         'last component, so fdopendir of a descriptor got from open() is outside this rule')
+def r22(cx):
+    F = cx.F
+    uses = _directory_content_uses(F)
+    searchers = {k: [u for u in v if u[2] == 'search'] for k, v in uses.items() if any(u[2] == 'search' for u in v)}
+    listers = sorted(k for k, v in uses.items() if any(u[2] == 'list' for u in v))
+    cx.require(searchers, 'no lookup of a name in FileBody::Directory.files found in the simulated kernel (the path walk FileSystem::get moved)')
+    cx.require(listers, 'no enumeration of FileBody::Directory.files found in the simulated kernel (VirtualDir::try_from moved)')
+    # row 1 (the sibling that always had it): lookup of a name behind the search permission
+    for k in sorted(searchers):
+        b = F.bodies[k]
+        cx.fn(k)
+        du = Q.DefUse(b)
+        for blk, t, kind in searchers[k]:
+            how, _tests = _behind_permission(F, b, du, blk, 'EXEC')
+            cx.site('%s: a name is looked up in a directory (%s at %s) behind its search permission: %s'
+                    % (k, pp.callee(t).split('::')[-1], b.loc(t), how or 'NO'))
+            cx.cellcount(1)
+            if not how:
+                seen = _mentions_permissions(F, b, du)
+                cx.require(not seen, '%s consults permission bits at %s in a shape this rule does not understand' % (k, seen))
+                cx.violation(k, 'directory-searched-without-search-permission', 'a name is looked up in a simulated directory without '
+                             'testing the search (execute) permission of the directory: `cat noexec/file` succeeds in the simulator and is '
+                             'EACCES on a real kernel', loc=b.loc(t))
+    # row 2: enumeration of the names behind the read permission, decided where a PATHNAME is turned into a listing
+    chain = {F.bodies[k].root for k in listers}
+    KB = _kernel_bodies(F)
+    changed = True
+    while changed:
+        changed = False
+        for k, b in KB.items():
+            if b.root in chain:
+                continue
+            if any(t['f'].get('def') in chain for _, t in b.calls()):
+                chain.add(b.root)
+                changed = True
+    by_path = [r for r in sorted(chain) if any(re.search(r'CStr|unix_path::Path|PathBuf', str(i)) for i in (F.fns.get(r) or {}).get('inputs') or [])]
+    by_fd = [r for r in sorted(chain) if r not in by_path and any(str(i).endswith('io::Fd') for i in (F.fns.get(r) or {}).get('inputs') or [])]
+    for r in by_fd:
+        cx.site('%s: lists the directory behind a DESCRIPTOR: the permission belongs to the open() that made the descriptor (the simulated '
+                'open checks none on the last component - not claimed)' % r)
+    cx.floor(len(by_path), 1, 'simulated system calls that turn a pathname into a directory listing (opendir)')
+    for r in by_path:
+        base = F.bodies.get(r)
+        cx.require(base is not None, 'body of %s missing' % r)
+        cx.fn(r)
+        body = _kernel_inlined(F, base)
+        du = Q.DefUse(body)
+        hand = [(blk, t) for blk, t in body.calls() if t['f'].get('def') in chain and t['f'].get('def') != r]
+        cx.require(hand, '%s no longer hands the directory to %s' % (r, sorted(chain - {r})))
+        for blk, t in hand:
+            how, tests = _behind_permission(F, body, du, blk, 'READ')
+            if how:
+                # the tested inode is the one handed on
+                roots = set()
+                for tt in tests:
+                    roots |= _value_roots(body, du, tt['a'][0])
+                handed = {Q.operand_local(a) for a in t['a']} - {None}
+                cx.require(handed & Q.forward_taint(body, roots), '%s: the read-permission test at %s is not on the inode handed to %s'
+                           % (r, ', '.join(sorted({body.loc(tt) for tt in tests})), pp.callee(t).split('::')[-1]))
+            cx.site('%s: the resolved directory is handed to %s (%s) behind its read permission: %s; sibling: %s tests the search permission'
+                    % (r, pp.callee(t).split('::')[-1], body.loc(t), how or 'NO', ', '.join(_short(k) for k in sorted(searchers))))
+            cx.cellcount(1)
+            if how:
+                continue
+            seen = _mentions_permissions(F, body, du)
+            cx.require(not seen, '%s consults permission bits at %s in a shape this rule does not understand' % (r, seen))
+            cx.violation(r, 'directory-listed-without-read-permission', 'the simulated %s turns a pathname into a directory listing without '
+                         'looking at the permission bits of the directory, while the path walk (%s) does test the search permission: after '
+                         '`mkdir -m 300 secret; : >secret/file`, `echo secret/*` lists secret/file in the simulator; a real opendir fails with '
+                         'EACCES and the pattern is left unexpanded' % (last(r), ', '.join(_short(k) for k in sorted(searchers))), loc=body.loc(t))
+
+
+RS.explanation += (' The contents of a simulated directory are used behind the permission of the use, and the two uses agree: lookup of a '
+                   'name behind the search permission (path walk), enumeration behind the read permission (opendir; fix 6476b30) (R22).')
+
+
+# ---------------------------------------------------------------------------------------
+# added after the fix f15911f (dup2(fd, fd) cleared FD_CLOEXEC; dup / dup2 stored a negative descriptor number)
+FD_TY = 'yash_env::io::Fd'
+PROCESS = VKERNEL + '::process::Process'
+_FD_MAP_CALL = re.compile(r'^alloc::collections::btree::map::BTreeMap::<K, V, A>::(\w+)$')
+_FD_MAP_ADDS = {'insert', 'try_insert', 'entry'}
+_FD_MAP_BULK = {'extend', 'append', 'extend_one'}
+_FD_MAP_KEEPS = {'remove', 'remove_entry', 'clear', 'get_mut', 'retain', 'pop_first', 'pop_last', 'values_mut', 'iter_mut', 'split_off',
+                 'first_entry', 'last_entry', 'get', 'keys', 'iter', 'values', 'len', 'is_empty', 'contains_key', 'range', 'range_mut',
+                 'first_key_value', 'last_key_value'}
+_CMP_EQ = re.compile(r'core::cmp::PartialEq(<[^>]*>)?>?::(eq|ne)$')
+_CMP_ORD = re.compile(r'core::cmp::PartialOrd(<[^>]*>)?>?::(lt|le|gt|ge)$')
+_INT = re.compile(r'^(?:const )?(-?\d+)(?:_?[iu](?:8|16|32|64|128|size))?$')
+
+
+def _fd_root(body, du, operand, depth=10):
+    """The parameter / variable of type Fd (or its number `.0`) an operand is a copy, a cast or a reference of; None for anything else."""
+    p = Q.operand_place(operand)
+    while depth and p is not None:
+        depth -= 1
+        proj = [e for e in (p.get('p') or []) if e != '*']
+        if any(not (isinstance(e, dict) and e.get('adt') == FD_TY) for e in proj):
+            return None
+        l = p['l']
+        if 1 <= l <= body.argc and l not in du.defs:
+            return l
+        d = du.single_def(l)
+        if d is None or d[1] == 't' or d[2]['k'] != 'assign':
+            return l if FD_TY in str(body.locals[l].get('ty')) or proj else None
+        rv = d[2]['rv']
+        if rv['k'] in ('use', 'cast'):
+            p = Q.operand_place(rv['o'])
+        elif rv['k'] == 'ref':
+            p = rv['pl']
+        else:
+            return None
+    return None
+
+
+def _int_value(body, du, operand, depth=4):
+    """Integer denoted by an operand: a literal, or the number of a constant `Fd(n)`; None when unknown."""
+    if 'c' in operand and not Q.operand_place(operand):
+        m = _INT.match(str(operand['c']).strip())
+        return int(m.group(1)) if m else None
+    org = du.origin(operand)
+    while depth:
+        depth -= 1
+        if org['k'] == 'const':
+            m = _INT.match(str(org['o'].get('c')).strip())
+            return int(m.group(1)) if m else None
+        if org['k'] == 'agg' and org['rv'].get('adt') == FD_TY and len(org['rv'].get('ops') or []) == 1:
+            return _int_value(body, du, org['rv']['ops'][0], depth)
+        if org['k'] in ('ref', 'place') and not org['pl'].get('p'):
+            nxt = du.origin_place(org['pl'])
+            if nxt['k'] == 'place' and nxt['pl'] == org['pl']:
+                return None
+            org = nxt
+            continue
+        if org['k'] == 'cast':
+            org = org['from']
+            continue
+        return None
+    return None
+
+
+_FLIP = {'Lt': 'Gt', 'Le': 'Ge', 'Gt': 'Lt', 'Ge': 'Le'}
+_NEG = {'Lt': 'Ge', 'Le': 'Gt', 'Gt': 'Le', 'Ge': 'Lt'}
+
+
+def _sign_fact(body, du, org, lab, key):
+    """'nonneg' | 'neg' when the condition tells that the number of descriptor `key` is >= 0 / < 0; None otherwise.
+    Shapes: `fd.0 < c`, `c <= fd.0`, ... with a literal, `fd < Fd(c)`, `fd.0.is_negative()`, `uN::try_from(fd.0)` being Ok."""
+    org, lab = Q.peel_not(du, org, lab)
+    if not lab:
+        return None
+    if org['k'] == 'discr' and lab[0] == 'variant' and not org['pl'].get('p'):
+        t = Q.value_source(body, du, {'cp': org['pl']})
+        if t is not None and re.search(r'::(try_from|try_into)$', pp.callee(t).split(' [')[0]) and t['a'] and \
+                _fd_root(body, du, t['a'][0]) == key and re.search(r'Result<u(8|16|32|64|128|size),', str(t.get('dty') or '')):
+            return 'nonneg' if lab[1] in ('Ok', 'Continue') else 'neg' if lab[1] in ('Err', 'Break') else None
+        return None
+    if lab[0] != 'bool':
+        return None
+    v = lab[1]
+    op = x = c = None
+    if org['k'] == 'binop' and org['rv']['op'] in _FLIP:
+        op, a, b = org['rv']['op'], org['rv']['a'], org['rv']['b']
+    elif org['k'] == 'call' and _CMP_ORD.search(pp.callee(org['t']).split(' [')[0]) and len(org['t']['a']) == 2:
+        op = {'lt': 'Lt', 'le': 'Le', 'gt': 'Gt', 'ge': 'Ge'}[pp.callee(org['t']).split(' [')[0].rsplit('::', 1)[1]]
+        a, b = org['t']['a']
+    elif org['k'] == 'call' and re.search(r'^core::num::<impl i\d+>::(is_negative|is_positive)$', pp.callee(org['t'])) and org['t']['a']:
+        if _fd_root(body, du, org['t']['a'][0]) != key:
+            return None
+        if pp.callee(org['t']).endswith('is_negative'):
+            return 'neg' if v else 'nonneg'
+        return 'nonneg' if v else None
+    else:
+        return None
+    if _fd_root(body, du, a) == key:
+        c = _int_value(body, du, b)
+    elif _fd_root(body, du, b) == key:
+        c = _int_value(body, du, a)
+        op = _FLIP[op]
+    if c is None:
+        return None
+    if not v:
+        op = _NEG[op]
+    # now: number OP c holds
+    if (op == 'Ge' and c >= 0) or (op == 'Gt' and c >= -1):
+        return 'nonneg'
+    if (op == 'Lt' and c <= 0) or (op == 'Le' and c <= -1):
+        return 'neg'
+    return None
+
+
+def _mentions_key_in_condition(F, body, du, blk, key):
+    """A dominating condition reads the descriptor `key` in a shape _sign_fact does not decide."""
+    for org, lab, e in Q.implied_conditions(F, body, du, blk):
+        org, lab = Q.peel_not(du, org, lab)
+        ops = []
+        if org['k'] == 'binop':
+            ops = [org['rv']['a'], org['rv']['b']]
+        elif org['k'] == 'call':
+            ops = list(org['t']['a'])
+        elif org['k'] == 'discr':
+            t = Q.value_source(body, du, {'cp': org['pl']})
+            ops = list(t['a']) if t is not None else []
+        if any(Q.operand_place(o) is not None and _fd_root(body, du, o) == key for o in ops):
+            return body.loc(body.term(e[0]))
+    return None
+
+
+def _same_fd_fact(body, du, org, lab, a, b):
+    """True / False when the condition tells that the descriptors a and b are equal / different; None otherwise."""
+    org, lab = Q.peel_not(du, org, lab)
+    if not lab or lab[0] != 'bool':
+        return None
+    if org['k'] == 'call' and _CMP_EQ.search(pp.callee(org['t']).split(' [')[0]) and len(org['t']['a']) == 2:
+        ops, ne = org['t']['a'], pp.callee(org['t']).split(' [')[0].endswith('::ne')
+    elif org['k'] == 'binop' and org['rv']['op'] in ('Eq', 'Ne'):
+        ops, ne = [org['rv']['a'], org['rv']['b']], org['rv']['op'] == 'Ne'
+    else:
+        return None
+    if {_fd_root(body, du, o) if Q.operand_place(o) is not None else None for o in ops} != {a, b}:
+        return None
+    return lab[1] != ne
+
+
+def _fd_table_writes(body, du):
+    """[(block, call, what)]: calls that change the descriptor table of a simulated process - a `&mut Process` method given a
+    descriptor number, or a mutator of the `fds` map."""
+    out = []
+    for blk, t in body.calls():
+        name = pp.callee(t).split(' [')[0]
+        at = [str(x) for x in (t.get('at') or [])]
+        if name.startswith(PROCESS + '::') and at and at[0].startswith('&mut') and any(x == FD_TY for x in at[1:]):
+            out.append((blk, t, name.split('::')[-1]))
+        m = _FD_MAP_CALL.match(name)
+        if m and at and at[0].startswith('&mut') and 'BTreeMap<' + FD_TY in at[0] and m.group(1) not in ('get', 'keys', 'iter', 'values', 'len'):
+            out.append((blk, t, 'fds.' + m.group(1)))
+    return out
+
+
+@RS.rule('C19.R23', 'K-GUARD', 'dup2(fd, fd) is a no-op that returns fd, as dup2(2) says ("shall return fildes2 without closing it"): in the '
+         'simulated dup2 every change of the descriptor table (set_fd, which rebuilds the slot with FD_CLOEXEC cleared) happens only when '
+         'the two descriptors differ - otherwise `dup2(1, 1)` silently drops the close-on-exec flag of descriptor 1')
+def r23(cx):
+    F = cx.F
+    d = _impl_fn(F, VIRT, 'Dup::dup2')
+    cx.require(d is not None, 'VirtualSystem does not implement Dup::dup2')
+    base = F.bodies.get(d)
+    cx.require(base is not None, 'body of %s missing' % d)
+    cx.fn(d)
+    body = _kernel_inlined(F, base)
+    du = Q.DefUse(body)
+    fds = [p for p in range(1, body.argc + 1) if body.locals[p].get('ty') == FD_TY]
+    cx.require(len(fds) == 2, 'the simulated dup2 no longer takes two descriptors')
+    a, b = fds
+    writes = _fd_table_writes(body, du)
+    cx.require(writes, 'the simulated dup2 no longer changes the descriptor table through a &mut Process method or the fds map (anchor moved)')
+    for blk, t, what in writes:
+        ok = any(_same_fd_fact(body, du, org, lab, a, b) is False for org, lab, e in Q.implied_conditions(F, body, du, blk))
+        cx.site('simulated dup2: %s at %s only when `%s` and `%s` differ: %s' % (what, body.loc(t), body.local_name(a), body.local_name(b), ok))
+        cx.cellcount(1)
+        if ok:
+            continue
+        # some other comparison of the two descriptors: a shape this rule does not decide
+        other = None
+        for u in sorted(body.live_blocks()):
+            for st in body.blocks[u]['s']:
+                if st['k'] == 'assign' and st['rv']['k'] == 'binop' and \
+                        {_fd_root(body, du, o) for o in (st['rv']['a'], st['rv']['b']) if Q.operand_place(o) is not None} == {a, b}:
+                    other = body.loc(st)
+            tt = body.term(u)
+            if tt['k'] == 'call' and tt is not t and {_fd_root(body, du, o) for o in tt['a'] if Q.operand_place(o) is not None} >= {a, b} \
+                    and re.search(r'core::cmp::', pp.callee(tt)):
+                other = body.loc(tt)
+        cx.require(other is None, 'the simulated dup2 compares its two descriptors at %s in a shape this rule does not understand' % other)
+        cx.violation(d, 'same-descriptor-slot-rebuilt:%s' % what, 'the simulated dup2 changes the descriptor table (%s) without having found the '
+                     'two descriptors different: dup2(fd, fd) replaces the slot of fd by a copy with FD_CLOEXEC cleared, so `dup2(1, 1)` on '
+                     'a close-on-exec descriptor 1 loses the flag; a real kernel returns fd and changes nothing' % what, loc=body.loc(t))
+
+
+@RS.rule('C19.R24', 'K-WRITERS', 'descriptor numbers are never negative: every insertion into the descriptor table of a simulated process '
+         '(Process.fds) is behind a test that the key is not negative - inside the inserting function when it is public (set_fd, through '
+         'which open_fd_ge / dup / dup2 / open go) - so `dup2(1, -1)` is EBADF and leaves no descriptor -1 even when RLIMIT_NOFILE is '
+         'unlimited; and fcntl(F_DUPFD) with a negative minimum is EINVAL in the simulated dup as in POSIX')
+def r24(cx):
+    F = cx.F
+    cx.require(PROCESS in F.adts, 'virtual::process::Process not found')
+    fields = [f['name'] for f in F.adts[PROCESS]['variants'][0]['fields']]
+    cx.require('fds' in fields, 'Process has no field `fds` any more')
+    fds_idx = fields.index('fds')
+    ninserts = 0
+    for k in sorted(F.bodies):
+        if not k.startswith('yash_env::') and 'yash_env::' not in k.split(' as ')[0]:
+            continue
+        if '::tests::' in k or k.endswith('::tests') or '::tests::' in F.bodies[k].root:
+            continue
+        b = F.bodies[k]
+        hits = Q.field_writes(b, PROCESS, 'fds')
+        aggs = Q.find_aggregates(b, PROCESS)
+        if not hits and not aggs:
+            continue
+        du = Q.DefUse(b)
+        # a whole table put in place: a fresh one or a copy of another process's (fork)
+        whole = [(i, s, s['rv']) for i, j, s, how, f in hits if how == 'assign' and
+                 isinstance(s['lhs']['p'][-1], dict) and s['lhs']['p'][-1].get('f') == 'fds']
+        whole += [(i, s, {'k': 'use', 'o': s['rv']['ops'][fds_idx]}) for i, j, s in aggs if len(s['rv'].get('ops') or []) > fds_idx]
+        for i, s, rv in whole:
+            src = Q.value_source(b, du, rv['o']) if rv['k'] == 'use' and Q.operand_place(rv['o']) is not None else None
+            okc = src is not None and re.search(r'BTreeMap::<[^>]*>::new$|Default>::default$|Clone>::clone$', pp.callee(src).split(' [')[0])
+            cx.site('%s: the whole descriptor table is set at %s from %s' % (k, b.loc(s), pp.callee(src).split('::')[-1] if src else '?'))
+            cx.require(okc, '%s: the descriptor table is replaced at %s by something that is neither a new nor a cloned table' % (k, b.loc(s)))
+        for i, j, s, how, f in hits:
+            if how != 'borrow_mut':
+                continue
+            T = Q.forward_taint(b, {s['lhs']['l']}, through_calls=[re.compile(r'::deref_mut$')])
+            cx.require(0 not in T, '%s hands out `&mut` access to the descriptor table (%s): its users are not followed by this rule' % (k, b.loc(s)))
+            for blk, t in b.calls():
+                m = _FD_MAP_CALL.match(pp.callee(t).split(' [')[0])
+                if not t['a'] or Q.operand_local(t['a'][0]) not in T:
+                    continue
+                if not m:
+                    cx.require('BTreeMap' not in str((t.get('at') or [''])[0]),
+                               '%s: the descriptor table is passed to %s at %s (not understood)' % (k, pp.callee(t), b.loc(t)))
+                    continue
+                meth = m.group(1)
+                if meth in _FD_MAP_KEEPS:
+                    continue
+                cx.require(meth in _FD_MAP_ADDS, '%s: BTreeMap::%s on the descriptor table at %s may add keys in a way this rule does not follow'
+                           % (k, meth, b.loc(t)))
+                ninserts += 1
+                cx.fn(k)
+                key = _fd_root(b, du, t['a'][1])
+                cx.require(key is not None, '%s: the key inserted at %s is not a plain descriptor variable' % (k, b.loc(t)))
+                ok = any(_sign_fact(b, du, org, lab, key) == 'nonneg' for org, lab, e in Q.implied_conditions(F, b, du, blk))
+                where = 'in the function'
+                pub = (F.fns.get(b.root) or {}).get('vis') == 'pub'
+                if not ok and not pub and 1 <= key <= b.argc:
+                    # a private inserting function: every caller must have made sure
+                    callers = [(cb, cblk, ct) for cb, cblk, ct in F.callers_of(lambda names, ct_: b.root in names) if '::tests' not in cb.fn]
+                    good = []
+                    for cb, cblk, ct in callers:
+                        cdu = Q.DefUse(cb)
+                        arg = ct['a'][key - 1]
+                        ck = _fd_root(cb, cdu, arg) if Q.operand_place(arg) is not None else None
+                        n = _int_value(cb, cdu, arg)
+                        good.append((n is not None and n >= 0) or (ck is not None and any(
+                            _sign_fact(cb, cdu, org, lab, ck) == 'nonneg' for org, lab, e in Q.implied_conditions(F, cb, cdu, cblk))))
+                    ok = bool(callers) and all(good)
+                    where = 'in every caller (%d)' % len(callers)
+                cx.site('%s: BTreeMap::%s of key `%s` into Process.fds at %s behind a not-negative test %s: %s'
+                        % (k, meth, b.local_name(key), b.loc(t), where, ok))
+                cx.cellcount(1)
+                if ok:
+                    continue
+                odd = _mentions_key_in_condition(F, b, du, blk, key)
+                cx.require(odd is None, '%s: the insertion at %s is behind a test of the key at %s that this rule does not understand' % (k, b.loc(t), odd))
+                cx.violation(b.root, 'negative-descriptor-stored', 'a negative number can become a key of the descriptor table: %s inserts `%s` '
+                             'without a test that it is not negative (the limit test does not apply when RLIMIT_NOFILE is unlimited, the '
+                             'default of the simulator), so `dup2(1, -1)` succeeds and leaves a descriptor -1 open, and `dup(1, -1)` '
+                             'allocates -1; a real kernel answers EBADF / EINVAL' % (_short(b.root), b.local_name(key)), loc=b.loc(t))
+    cx.floor(ninserts, 1, 'insertions into Process.fds')
+    # fcntl(F_DUPFD, negative) is EINVAL
+    d = _impl_fn(F, VIRT, 'Dup::dup')
+    cx.require(d is not None, 'VirtualSystem does not implement Dup::dup')
+    base = F.bodies.get(d)
+    cx.require(base is not None, 'body of %s missing' % d)
+    cx.fn(d)
+    body = _kernel_inlined(F, base)
+    du = Q.DefUse(body)
+    fdp = [p for p in range(1, body.argc + 1) if body.locals[p].get('ty') == FD_TY]
+    cx.require(len(fdp) == 2, 'the simulated dup no longer takes (from, to_min)')
+    to_min = fdp[1]
+    einval = [(blk, s) for blk, j, s in Q.find_aggregates(body, 'core::result::Result', 'Err')
+              if any(str(o.get('cdef') or '').endswith('errno::Errno::EINVAL') for o in s['rv']['ops'] if isinstance(o, dict))]
+    ok = any(_sign_fact(body, du, org, lab, to_min) == 'neg' for blk, s in einval for org, lab, e in Q.implied_conditions(F, body, du, blk))
+    cx.site('simulated dup (F_DUPFD): negative minimum `%s` => EINVAL: %s' % (body.local_name(to_min), ok))
+    cx.cellcount(1)
+    if not ok:
+        anywhere = [lb.fn for lb in F.logical(d) for blk, j, s in lb.stmts() if s['k'] == 'assign' and
+                    any(isinstance(o, dict) and str(o.get('cdef') or '').endswith('errno::Errno::EINVAL') for o in Q.rvalue_operands(s['rv']))]
+        anywhere += [lb.fn for lb in F.logical(d) for blk, t in lb.calls()
+                     if any(str(o.get('cdef') or '').endswith('errno::Errno::EINVAL') for o in t['a'])]
+        cx.require(not anywhere, 'the simulated dup mentions EINVAL in %s in a shape this rule does not understand' % sorted(set(anywhere)))
+        cx.violation(d, 'negative-minimum-not-EINVAL', 'the simulated dup (fcntl F_DUPFD) has no EINVAL return under a test that the minimum '
+                     'descriptor is negative: `dup(1, -1)` answers EMFILE (or allocates descriptor -1) where POSIX fcntl says EINVAL',
+                     loc=body.loc(body.d))
+
+
+RS.explanation += (' After fix f15911f: the simulated dup2 changes the descriptor table only when its two descriptors differ (R23); every '
+                   'insertion into Process.fds is behind a not-negative test of the key and dup with a negative minimum is EINVAL (R24).')
